@@ -47,6 +47,7 @@ const (
 	shFuncSys           // TEXT syscall.Syscall(SB) /src/asm.s      (a syscall wrapper: raw sites inside are not sites)
 	shFuncEmpty         // "TEXT "
 	shFuncBare          // "TEXT"
+	shFuncGeneric       // TEXT main.g[go.shape.struct { F int }](SB) /src/f.go   (symbol contains blanks)
 	shRaw               // 4-field raw syscall instruction of this parser
 	shRawOther          // the other parser's raw instruction (neutral here)
 	shRawBare           // "SYSCALL" / "INT $0x80" alone on the line
@@ -65,7 +66,7 @@ const (
 	shCount
 )
 
-var shapeNames = []string{"TEXT f", "TEXT syscall.Syscall", "TEXT_", "TEXT(bare)", "RAW", "RAW-other", "RAW(bare)", "MOV $0x3b,AX", "MOV $1,BP", "MOV $1,0(SP)", "MOV $-1,AX", "MOV $zz,AX", "MOV $999999,AX", "XORL AX,AX", "CALL syscall.Syscall", "CALL(bare)", "NOPL", "(empty)", "(70000 bytes)"}
+var shapeNames = []string{"TEXT f", "TEXT syscall.Syscall", "TEXT_", "TEXT(bare)", "TEXT generic", "RAW", "RAW-other", "RAW(bare)", "MOV $0x3b,AX", "MOV $1,BP", "MOV $1,0(SP)", "MOV $-1,AX", "MOV $zz,AX", "MOV $999999,AX", "XORL AX,AX", "CALL syscall.Syscall", "CALL(bare)", "NOPL", "(empty)", "(70000 bytes)"}
 
 func rawInstr(i386 bool) string {
 	if i386 {
@@ -85,6 +86,8 @@ func renderLine(sh, n int, i386 bool) string {
 		return "TEXT "
 	case shFuncBare:
 		return "TEXT"
+	case shFuncGeneric:
+		return fmt.Sprintf("TEXT main.g%d[go.shape.struct { F int; N uintptr }](SB) /src/f.go", n)
 	case shRaw:
 		return ins(rawInstr(i386))
 	case shRawOther:
@@ -145,6 +148,10 @@ func modelExtract(shapes []int, i386 bool, names map[int]string) (sites []modelS
 			continue
 		case shFuncEmpty, shFuncBare:
 			function = ""
+			window = window[:0]
+			continue
+		case shFuncGeneric:
+			function = fmt.Sprintf("main.g%d[go.shape.struct { F int; N uintptr }](SB) /src/f.go", n)
 			window = window[:0]
 			continue
 		}
@@ -319,7 +326,7 @@ func checkC16(tier, replay string) int {
 		}
 		// monotonicity: every prefix that is followed by a function marker keeps its syscalls
 		for k := 1; k < len(shapes); k++ {
-			if shapes[k] <= shFuncBare && prefixResults[k] != nil {
+			if shapes[k] <= shFuncGeneric && prefixResults[k] != nil {
 				atomic.AddInt64(&monoChecks, 1)
 				pre := prefixResults[k]
 				ok := len(pre) <= len(r.sites)
@@ -435,7 +442,7 @@ func checkC16(tier, replay string) int {
 	ctx.Cov["texts_that_cannot_be_read_to_the_end"] = errExpected
 	ctx.Cov["read_fault_runs"] = faults
 	ctx.Cov["max_lines"] = maxLines
-	ctx.Cov["rule"] = fmt.Sprintf("all texts of <= %d lines over a %d-shape line alphabet (4 kinds of function marker incl. 'TEXT ' and bare 'TEXT', raw syscall instruction with and without location fields, the other architecture's raw instruction, number loads into AX/BP/stack, negative/unparsable/unknown numbers, the XOR idiom, calls of syscall.Syscall with and without location fields, neutral, empty and a 70000-byte line) for both parsers, with and without trailing newline, parsed by the real ExtractSyscalls under recover and compared with an independent site-model parser (number, name, caller, location), with the oracle tables, for monotonicity under appended functions and for an error whenever the text cannot be read to the end; plus generated multi-function listings and a read error injected (strace) at every read call of 3 listings; non-trivial = parses that report at least one syscall", maxLines, shCount)
+	ctx.Cov["rule"] = fmt.Sprintf("all texts of <= %d lines over a %d-shape line alphabet (5 kinds of function marker incl. 'TEXT ', bare 'TEXT' and a generic symbol containing blanks, raw syscall instruction with and without location fields, the other architecture's raw instruction, number loads into AX/BP/stack, negative/unparsable/unknown numbers, the XOR idiom, calls of syscall.Syscall with and without location fields, neutral, empty and a 70000-byte line) for both parsers, with and without trailing newline, parsed by the real ExtractSyscalls under recover and compared with an independent site-model parser (number, name, caller, location), with the oracle tables, for monotonicity under appended functions and for an error whenever the text cannot be read to the end; plus generated multi-function listings and a read error injected (strace) at every read call of 3 listings; non-trivial = parses that report at least one syscall", maxLines, shCount)
 	ctx.Assumptions = []string{"site model: the number is taken from the nearest preceding number-loading instruction of the same function after the previous detected site; raw sites inside syscall.Syscall wrappers are not sites", "strace fault injection (-e inject=read:error=EIO:when=N) realises read failures"}
 	ctx.Sample(map[string]any{"text": []string{"TEXT main.f0(SB) /src/f.go", "  f.go:1\t0x401001\t0f05\tMOVQ $0x3b, AX", "TEXT main.f2(SB) /src/f.go", "  f.go:3\t0x401003\t0f05\tSYSCALL"}, "expected": "no syscall: the load belongs to another function"})
 	return ctx.Finish()
